@@ -203,6 +203,16 @@ pub fn run_one(b: &[u8]) -> Result<OneResult, (String, String)> {
             ));
         }
     }
+    if let (Ok(n), Ok((_, m))) = (&rc, &rp) {
+        // the connection checks, then parses the SAME buffer and discards the checked length:
+        // if both succeed they must agree on the length
+        if n != m {
+            return Err((
+                "check-parse-length-mismatch".into(),
+                format!("on {} Frame::check accepted {} bytes but Frame::parse on the same buffer succeeded having consumed {}", show(), n, m),
+            ));
+        }
+    }
     if let Ok(n) = &rc {
         let n = *n;
         if n > b.len() {
@@ -398,7 +408,7 @@ pub fn prop() -> Prop<PCase> {
     Prop {
         id: "C07",
         level: "exploration",
-        rule: "Inputs are byte strings from five proptest generators: (1) uniform and RESP-alphabet random bytes; (2) grammar generated valid frames (nesting <= 6) with EVERY truncation point of their encoding; (3) mutations of valid frames (bit flips, inserted sign/terminator bytes, deletions, truncations, splices); (4) number focused inputs: optional padding element so the number starts at offset 0..64+, type ':'/'$'/'*', optional sign, 0-40 digits with leading zeros, values around i64::MIN/MAX, 10^18 and u64::MAX, damaged terminators; (5) nesting stress '*1\\r\\n' x d (four variants, d log-uniform up to 2^20 quick / 2^22 thorough) run in a worker process on a 2 MiB-stack thread and on the main thread. Frame::check and Frame::parse are applied to every input. Oracles: no panic, no process death; when parse returns a frame having consumed n bytes, a frame-guided walker re-derives every integer/length with 128-bit arithmetic and every payload by position (values must be exactly as written, out-of-range or negative lengths must not be accepted, the frame must account for exactly n bytes); when check accepts n bytes, parse on exactly those n bytes either fails or consumes n. evaluations = inputs (truncations included). Non-trivial: the input has >= 4 bytes and one of the two functions returned a verdict other than Incomplete, or parse returned a non-empty array; distinct = distinct hash of the case.",
+        rule: "Inputs are byte strings from five proptest generators: (1) uniform and RESP-alphabet random bytes; (2) grammar generated valid frames (nesting <= 6) with EVERY truncation point of their encoding; (3) mutations of valid frames (bit flips, inserted sign/terminator bytes, deletions, truncations, splices); (4) number focused inputs: optional padding element so the number starts at offset 0..64+, type ':'/'$'/'*', optional sign, 0-40 digits with leading zeros, values around i64::MIN/MAX, 10^18 and u64::MAX, damaged terminators; (5) nesting stress '*1\\r\\n' x d (four variants, d log-uniform up to 2^20 quick / 2^22 thorough) run in a worker process on a 2 MiB-stack thread and on the main thread. Frame::check and Frame::parse are applied to every input. Oracles: no panic, no process death; when parse returns a frame having consumed n bytes, a frame-guided walker re-derives every integer/length with 128-bit arithmetic and every payload by position (values must be exactly as written, out-of-range or negative lengths must not be accepted, the frame must account for exactly n bytes); when check accepts n bytes, parse on exactly those n bytes either fails or consumes n, and parse on the same (longer) buffer, which is what the connection does, either fails or consumes n. evaluations = inputs (truncations included). Non-trivial: the input has >= 4 bytes and one of the two functions returned a verdict other than Incomplete, or parse returned a non-empty array; distinct = distinct hash of the case.",
         assumptions: &[
             "leniencies of the real parser that the property does not forbid (byte after CR not checked to be LF, bytes after a bulk payload not checked to be CRLF, '$-2' accepted by check and rejected by parse) are not flagged: the walker is guided by the returned frame",
             "the harness is built with overflow checks on, so arithmetic overflow in the parser surfaces as a panic; the libFuzzer target (thorough) has the same oracle in-target",
